@@ -910,7 +910,40 @@ def rule_eval_comb_is_the_comb_schedule(repo):
     return rule_agree(repo)
 
 
-RULES = [rule_cycle_loop_repeats, rule_request_slices_ordered, rule_eval_comb_is_the_comb_schedule, rule_wiring, rule_grant, rule_siblings, rule_options, rule_clocking, rule_clocking_ffset,
+def rule_every_register_clocked(repo):
+    """the arbiter's priority register is an update_ff block inside a generated meta block (Mamba): the generated function must
+    call every block of the meta block, or only the first arbiter of a design is ever clocked -- decided by C07
+    (R-C07-meta-block-codegen)"""
+    from rules.c07 import rule_meta_block_codegen
+    return rule_meta_block_codegen(repo)
+
+
+def rule_every_cycle_group_runs(repo):
+    """several arbiters each in their own block-level cycle (or one large cycle around two arbiters): every group is re-evaluated
+    by its own generated loop over its own blocks -- decided by C11 (R-C11-cover, R-C11-once, R-C11-metaname)"""
+    import rules.c11 as c11
+    out = []
+    for rl in (c11.rule_cover, c11.rule_once, c11.rule_metaname):
+        res = rl(repo)
+        out.extend(res if isinstance(res, list) else [res])
+    return out
+
+
+def rule_no_block_dropped(repo):
+    """a very branchy block upstream of the arbiter (a command decoder) must not make the scheduler drop its successors: every
+    scheduler is a topological sort that loses no block -- decided by C02 (R-kahn)"""
+    from rules.c02 import rule_kahn
+    return rule_kahn(repo)
+
+
+def rule_each_instance_wired(repo):
+    """two arbiters of the same class: the net blocks that drive priority_reg.in_ from the grant slices are compiled per net
+    against their own instance -- decided by C08 (R-C08-netblock)"""
+    from rules.c08 import rule_netblock
+    return rule_netblock(repo)
+
+
+RULES = [rule_every_register_clocked, rule_every_cycle_group_runs, rule_no_block_dropped, rule_each_instance_wired, rule_cycle_loop_repeats, rule_request_slices_ordered, rule_eval_comb_is_the_comb_schedule, rule_wiring, rule_grant, rule_siblings, rule_options, rule_clocking, rule_clocking_ffset,
          rule_slice_nets_collected, rule_slice_nets_driven, rule_late_connections, rule_pointer_flipped,
          rule_installed_late, rule_cycle_settles]
 THOROUGH_RULES = [rule_grant_larger]
